@@ -25,6 +25,8 @@ MUTS['MH4_count_loop_double_increment'] = ('RadixSorter.h', "				size_t radix = 
 MUTS['MH5_prefix_sum_from_zero'] = ('RadixSorter.h', "			for (size_t r = 1; r < radixCount; ++r)\n				endIndexes[r] += endIndexes[r - 1];", "			for (size_t r = 2; r < radixCount; ++r)\n				endIndexes[r] += endIndexes[r - 1];")
 MUTS['MC1_cycle_begin_table_shifted'] = ('RadixSorter.h', "				beginIndexes[r] = endIndexes[r - 1];", "				beginIndexes[r] = endIndexes[r - 1] + (r == 1 ? 1 : 0);")
 MUTS['ME1_exponential_step'] = ('HashSorter.h', "for (size_t i = 0; i < count; i = i * 2 + 2)", "for (size_t i = 0; i < count; i = i * 2 + 1)")
+MUTS['MF1_findother_no_skip'] = ('HashSorter.h', "return pvExponentialSearch(begin + 1, count - 1, iterComparer).iterator;", "return pvExponentialSearch(begin, count, iterComparer).iterator;")
+MUTS['MF2_findother_count_not_decremented'] = ('HashSorter.h', "return pvExponentialSearch(begin + 1, count - 1, iterComparer).iterator;", "return pvExponentialSearch(begin + 1, count, iterComparer).iterator;")
 MUTS['M0_revert_2715474'] = ('REVERT', '2715474', '')
 MUTS['MA1_revert_c1e16df_signed_codes'] = ('REVERT', 'c1e16df', '')
 MUTS['M1_revert_bb23c06'] = ('REVERT', 'bb23c06', '')
